@@ -341,7 +341,7 @@ def slotSummary (O : Oracles) (q : AggStmt) (g : List Env) (s : Bool × AggKind)
   if s.1 && isKeyKind s.2 then some .key else (arguments O q s.2 g).bind (summarize s.2)
 
 def finishSlot (s : Bool × AggKind) (x : Summary) : Option Value :=
-  if s.1 && isKeyKind s.2 then some .null else finish s.2 x
+  if s.1 && isKeyKind s.2 then some .null else finishSummary s.2 x
 
 /-- what a part remembers of one group: one summary per aggregate slot -/
 def summaryRow (O : Oracles) (q : AggStmt) (_key : List Value) (g : List Env) : Option (List Summary) :=
@@ -432,7 +432,7 @@ theorem summaryRow_append {O : Oracles} {q : AggStmt} (key : List Value) (g1 g2 
 
 /-! ### the table from keyed summaries -/
 
-/-- the table a list of keyed summary rows stands for: finish every slot, then rows, HAVING, DISTINCT, LIMIT -/
+/-- the table a list of keyed summary rows stands for: finishSummary every slot, then rows, HAVING, DISTINCT, LIMIT -/
 def tableOfSummaries (O : Oracles) (q : AggStmt) (S : List (List Value × List Summary)) : Option (List (List Value)) :=
   match collect (S.map (fun ks => ((finishRow q ks.2).bind (perGroupV O q ks.1)))) with
   | none => none
